@@ -4,7 +4,6 @@ import warnings
 from ..domain import BoundaryDomain, Domain
 from ..domain0D import Point
 from .union import UnionDomain
-from ....utils.user_fun import UserFunction
 from ...spaces import Points
 
 
@@ -174,9 +173,7 @@ class ProductDomain(Domain):
             b_points = self.domain_b.sample_random_uniform(n=n, params=new_params)
             if len(self.domain_b.necessary_variables) > 0:
                 # points need to be sampled in every call to this function
-                volume_a = self.domain_a.volume(
-                    b_points.join(new_params), device=device
-                )
+                volume_a = self._volume_a_at(b_points.join(new_params), device)
                 reshape_volume = volume_a.reshape(N_APPROX_VOLUME, -1)
                 mean_volume = torch.sum(reshape_volume, dim=0) / N_APPROX_VOLUME
                 return mean_volume.reshape(-1, 1) * self.domain_b.volume(
@@ -192,8 +189,8 @@ class ProductDomain(Domain):
                     )
                     return (
                         torch.sum(
-                            self.domain_a.volume(
-                                b_points.join(new_params), device=device
+                            self._volume_a_at(
+                                b_points.join(new_params), device
                             ).reshape(N_APPROX_VOLUME, -1),
                             dim=0,
                         )
@@ -201,18 +198,29 @@ class ProductDomain(Domain):
                         * b_volume
                     )
 
-                args = self.domain_a.necessary_variables - self.domain_b.space.variables
-                self._user_volume = UserFunction(avg_volume, args=args)
+                # the estimate is not stored as user volume: the stored function was
+                # called like a domain parameter (keywords, device) and raised in every
+                # later call of volume()
                 return avg_volume(params)
             else:
                 # we can compute the volume only once and save it
                 volume = sum(
-                    (self.domain_a.volume(b_points, device=device))
+                    self._volume_a_at(b_points, device)
                     / N_APPROX_VOLUME
                     * self.domain_b.volume(device=device)
                 )
                 self.set_volume(volume)
                 return torch.repeat_interleave(volume, max(1, len(params)), dim=0)
+
+    def _volume_a_at(self, points, device="cpu"):
+        """The volume of domain_a for every row of points. A volume that does not
+        depend on the rows (e.g. a moving circle of constant radius) is returned by
+        domain_a as a single row and is repeated here.
+        """
+        volume_a = self.domain_a.volume(points, device=device).reshape(-1, 1)
+        if len(volume_a) == 1:
+            volume_a = volume_a.expand(max(len(points), 1), 1)
+        return volume_a
 
     def sample_grid(self, n=None, d=None, params=Points.empty(), device="cpu"):
         raise NotImplementedError(
